@@ -69,6 +69,7 @@ public:
     sim::Net& net; Config cfg;
     std::vector<WireEvt> wire; std::vector<ConnState> cs; std::map<std::string, Session> sessions;
     int handshakes_ok = 0, connects_seen = 0, subs_seen = 0, unsubs_seen = 0;
+    std::vector<OutMsg> lost_out;                     // outbound messages of sessions the broker discarded (sp=0)
     std::vector<std::string> protocol_violations;   // things the client must never do (C17 wire monitor etc.)
     int next_hs_variant = HS_OK;                      // set by the explorer before delivering a CONNECT
 
@@ -76,6 +77,7 @@ public:
     void on_open(int conn) override;
     void on_bytes(int conn) override;
     void on_client_close(int conn) override;
+    bool handshake_done(int conn) override { return conn < int(cs.size()) && cs[conn].handshake_ok; }
 
     void set_behaviour(int conn, int b) { cs[conn].behaviour = b; }
     bool has_held(int conn) const { return conn < int(cs.size()) && !cs[conn].held.empty(); }
